@@ -1,5 +1,6 @@
 import Secp.Proofs.PointOps
 import Secp.Proofs.PointOpsAffine
+import Secp.Proofs.PointOpsR2
 import Secp.Proofs.Chains
 /-
   Props/C04 — point addition and doubling implement the group law for every representation.
@@ -7,7 +8,7 @@ import Secp.Proofs.Chains
   The objects are the REGENERATED call-structured formula programs `Secp.Gen.FormulasC` (tools/gotr
   pass T2 from curve.go on every run): `AddNonConst` with a distinct result (`addNC3`), with the
   result aliasing the first operand (`addNC`, entry AddNonConst_a010 — the way every caller in the
-  library uses it), `DoubleNonConst` in place (`dblNC`, entry DoubleNonConst_a00), and `ToAffine`.
+  library uses it), with the result aliasing the second operand (`addNCr2`, entry AddNonConst_a011), `DoubleNonConst` in place (`dblNC`, entry DoubleNonConst_a00), and `ToAffine`.
   `Jac.toPt` maps a Jacobian triple to the affine point it represents (`none` for Z = 0 or
   X = Y = 0); `Secp.Spec.Pt.add/Pt.dbl` is the affine chord-and-tangent law, which
   `Secp.Proofs.SpecGroup` proves to be Mathlib's `WeierstrassCurve.Affine.Point` group law.
@@ -26,6 +27,17 @@ theorem add_inplace_spec (q p : Jac) (hq : Jac.WF q) (hp : Jac.WF p) :
 theorem add_spec (a b : Jac) (ha : Jac.WF a) (hb : Jac.WF b) :
     Jac.WF (addNC3 a b) ∧ Jac.toPt (addNC3 a b) = Pt.add (Jac.toPt a) (Jac.toPt b) :=
   Secp.Proofs.PointOps.pointOps_add3 a b ha hb
+
+/-- `AddNonConst(&a, &b, &b)`: the result aliases the second operand -/
+theorem add_alias_second_spec (a b : Jac) (ha : Jac.WF a) (hb : Jac.WF b) :
+    Jac.WF (addNCr2 a b) ∧ Jac.toPt (addNCr2 a b) = Pt.add (Jac.toPt a) (Jac.toPt b) :=
+  Secp.Proofs.PointOps.pointOps_add_r2 a b ha hb
+
+/-- … and that call leaves its first operand untouched -/
+theorem add_alias_second_preserves_first (a b : Jac) (ha : Jac.WF a) (hb : Jac.WF b) :
+    (match runNamed "AddNonConst_a011" [a.1, a.2.1, a.2.2, b.1, b.2.1, b.2.2] [] with
+     | some (r, _) => (Secp.FOp.rget r 0, Secp.FOp.rget r 1, Secp.FOp.rget r 2) = a | none => False) :=
+  Secp.Proofs.PointOps.addNCr2_preserves_a a b ha hb
 
 /-- `DoubleNonConst(&q, &q)` -/
 theorem double_inplace_spec (q : Jac) (hq : Jac.WF q) :
